@@ -153,7 +153,10 @@ fn main() {
     let seed: u64 = arg(&args, "--seed").and_then(|s| s.parse().ok()).unwrap_or(1);
     let iters: usize = arg(&args, "--iters").and_then(|s| s.parse().ok()).unwrap_or(1000);
     let sched = arg(&args, "--scheduler").unwrap_or_else(|| "random".into());
-    let replay = arg(&args, "--replay");
+    let replay = match arg(&args, "--replay-file") {
+        Some(f) => std::fs::read_to_string(f).ok().map(|s| s.trim().to_string()),
+        None => arg(&args, "--replay"),
+    };
     // silence the default panic output; shuttle installs its own hook on top
     std::panic::set_hook(Box::new(|_| {}));
     let mut attempt = 0u64;
